@@ -90,6 +90,7 @@ class MockCA:
             "wildcard_style": "rfc",      # authz for *.x has identifier x and wildcard=true
             "orders_url": True,
             "cert_body": None,            # override the served certificate body
+            "chain_sep": "",              # text between the certificates of the chain (Boulder: "\n")
             "delay_ms": 0,
         }
         if opts:
@@ -601,7 +602,7 @@ class MockCA:
                 if "pem" in r:
                     self.obj_ctr += 1
                     cid = str(self.obj_ctr)
-                    self.certs[cid] = r["pem"]
+                    self.certs[cid] = r["pem"].replace("-----\n-----BEGIN", "-----\n" + o["chain_sep"] + "-----BEGIN")
                     od["cert"] = self.url("/cert/" + cid)
                     od["status"] = "valid"
                 else:
